@@ -382,7 +382,9 @@ PROPS = {
                       "through the crate's era table, month-code validation and the library's date_from_codes returns the original "
                       "ISO date from each of the three field sets, both overflow modes; every reported year passes the crate's year "
                       "guard), C16_with_own_fields_identity (with() merges into the receiver's own year, month code and day and "
-                      "returns the receiver when given its own fields), C16_year_month_first_of_month (whenever to_plain_year_month "
+                      "returns the receiver when given its own day), C16_with_own_era_identity / C16_with_own_year_or_code_identity "
+                      "(likewise when given back its own era and era year - every date, no exception -, its own year, or its own "
+                      "month code), C16_year_month_first_of_month (whenever to_plain_year_month "
                       "succeeds the stored reference date is day 1 of the date's own calendar year and month), "
                       "C16_japanese_nonpositive_year (the one exception, proved as a fact of the code), C16_year_guard (years "
                       "beyond +-300000 are RangeErrors before the library is asked), C16_with_calendar_keeps_iso. For ALL calendars: "
